@@ -11,7 +11,7 @@ import sysconfig
 from abc import ABCMeta, abstractmethod
 from contextlib import contextmanager
 from types import CodeType
-from typing import Iterator, Optional
+from typing import Dict, Iterator, Optional, Tuple
 
 from monkeytype.db.base import CallTraceStore, CallTraceStoreLogger
 from monkeytype.db.sqlite import SQLiteStore
@@ -94,7 +94,27 @@ def _startswith(a: pathlib.Path, b: pathlib.Path) -> bool:
         return False
 
 
-@functools.lru_cache(maxsize=8192)
+def _cache_by_filename(code_filter: CodeFilter) -> CodeFilter:
+    """Memoize default_code_filter, whose verdict depends on the code's file
+    (and on MONKEYTYPE_TRACE_MODULES) only.
+
+    The memo is keyed by file name, not by code object: code objects compare
+    by value and ignore co_filename, so the same source loaded from two files
+    (a module vendored into a project) gives equal code objects.
+    """
+    verdicts: Dict[Tuple[str, Optional[str]], bool] = {}
+
+    @functools.wraps(code_filter)
+    def cached_filter(code: CodeType) -> bool:
+        key = (code.co_filename, os.environ.get("MONKEYTYPE_TRACE_MODULES"))
+        if key not in verdicts:
+            verdicts[key] = code_filter(code)
+        return verdicts[key]
+
+    return cached_filter
+
+
+@_cache_by_filename
 def default_code_filter(code: CodeType) -> bool:
     """A CodeFilter to exclude stdlib and site-packages."""
     # Filter code without a source file
